@@ -55,6 +55,9 @@ pub struct Planted {
     pub points: Vec<DatumPoint>,
     pub circles: Vec<DatumCircle>,
     pub arcs: Vec<DatumCircularArc>,
+    /// arcs that sweep more than a half turn (used by the kinds whose meaning does not depend on the
+    /// minor sector: radius, is-arc, length, angle)
+    pub reflex_arcs: Vec<DatumCircularArc>,
     pub cons: Vec<Constraint>,
     pub scale: f64,
     /// Where the sketch lives: every generated position is `origin + scale * (..)`.
@@ -157,6 +160,26 @@ impl Planted {
             self.circle(x, y, r)
         } else {
             *rng.pick(&self.circles)
+        }
+    }
+    /// Like `any_arc`, but one time in five an arc of 200..330 degrees (start to end, counter-clockwise).
+    fn any_arc_or_reflex(&mut self, rng: &mut Rng) -> DatumCircularArc {
+        if !rng.chance(1, 5) {
+            return self.any_arc(rng);
+        }
+        if self.reflex_arcs.is_empty() || rng.chance(1, 2) {
+            let (x, y) = self.rand_xy(rng);
+            let r = self.scale * (0.3 + rng.unit());
+            let a0 = 2.0 * PI * rng.unit();
+            let a1 = a0 + (200.0 + 130.0 * rng.unit()).to_radians();
+            let start = self.inner_point(x + r * a0.cos(), y + r * a0.sin());
+            let end = self.inner_point(x + r * a1.cos(), y + r * a1.sin());
+            let center = self.inner_point(x, y);
+            let a = DatumCircularArc { center, start, end };
+            self.reflex_arcs.push(a);
+            a
+        } else {
+            *rng.pick(&self.reflex_arcs)
         }
     }
     fn any_arc(&mut self, rng: &mut Rng) -> DatumCircularArc {
@@ -289,13 +312,13 @@ impl Planted {
                 ));
             }
             "ArcRadius" => {
-                let a = self.any_arc(rng);
+                let a = self.any_arc_or_reflex(rng);
                 let (cx, cy) = self.xy(&a.center);
                 let (sx, sy) = self.xy(&a.start);
                 self.cons.push(Constraint::ArcRadius(a, (cx - sx).hypot(cy - sy)));
             }
             "Arc" => {
-                let a = self.any_arc(rng);
+                let a = self.any_arc_or_reflex(rng);
                 self.cons.push(Constraint::Arc(a));
             }
             "Midpoint" => {
@@ -417,7 +440,7 @@ impl Planted {
                 self.cons.push(Constraint::PointArcCoincident(a, p));
             }
             "ArcLength" => {
-                let a = self.any_arc(rng);
+                let a = self.any_arc_or_reflex(rng);
                 let (cx, cy) = self.xy(&a.center);
                 let (sx, sy) = self.xy(&a.start);
                 let (ex, ey) = self.xy(&a.end);
@@ -445,7 +468,7 @@ impl Planted {
                     self.cons.push(Constraint::ArcAngle(arc, half));
                     return;
                 } else {
-                    self.any_arc(rng)
+                    self.any_arc_or_reflex(rng)
                 };
                 let (cx, cy) = self.xy(&a.center);
                 let (sx, sy) = self.xy(&a.start);
